@@ -250,7 +250,14 @@ func runC42(rc *sk.RunCtx) {
 				v = cert.Version1
 			}
 			n := slices.Clone(curNets(v))
-			switch tp.Choose(3) {
+			switch tp.Choose(4) {
+			case 3:
+				// only the host address of a non-primary network moves, inside its subnet (same prefix once masked)
+				if len(n) > 1 {
+					n[len(n)-1] = netip.MustParsePrefix("10.129.0.77/24")
+				} else {
+					n[0] = netip.MustParsePrefix("10.128.0.99/24")
+				}
 			case 0:
 				n[0] = netip.MustParsePrefix("10.128.0.99/24")
 			case 1:
